@@ -116,7 +116,7 @@ func spkiMutant(r *gen.Rng, pt []byte) ([]byte, string) {
 		// declared unused bits, content unshifted, padding bits zero or not
 		k := byte(1 + r.Intn(7))
 		body := append([]byte{}, pt...)
-		if r.Bool() {
+		if r.Bool() && len(body) > 0 {
 			body[len(body)-1] &^= (1 << k) - 1
 		}
 		return tlv(0x30, append(alg(oidA, oidC, nil), bits(k, body)...)), "unused-bits-unshifted"
